@@ -577,3 +577,32 @@ def generic_replay(ctx, path):
     print("EXPECTED:", json.dumps(rp.get("expected") or rp.get("expect"))[:2000])
     print("OBSERVED NOW:", json.dumps({k: res.get(k) for k in ("outcome", "css", "log", "err", "panic", "stdio")})[:2000])
     return 0
+
+
+def run_fresh_processes(cases, tag, par=12, watchdog=20.0, mem=3 << 30):
+    """Each case in its own worker process (fresh process-wide state, fresh hash seeds)."""
+    import concurrent.futures
+    build_harness()
+    d = os.path.join(WORK, "fresh-%s-%d" % (tag, os.getpid()))
+    shutil.rmtree(d, ignore_errors=True)
+    os.makedirs(d)
+
+    def one(i):
+        inp = os.path.join(d, "in-%d.ndjson" % i)
+        out = os.path.join(d, "out-%d.ndjson" % i)
+        with open(inp, "w") as f:
+            f.write(json.dumps(cases[i]) + "\n")
+        try:
+            p = subprocess.run([WORKER, inp, out], preexec_fn=_limits(mem), stdin=subprocess.DEVNULL,
+                               stdout=subprocess.DEVNULL, stderr=subprocess.DEVNULL, timeout=watchdog)
+            with open(out) as f:
+                line = f.readline()
+            return json.loads(line) if line.strip() else {"outcome": "crash", "rc": p.returncode}
+        except subprocess.TimeoutExpired:
+            return {"outcome": "timeout"}
+        except Exception as e:
+            return {"outcome": "lost", "why": str(e)}
+    with concurrent.futures.ThreadPoolExecutor(max_workers=par) as ex:
+        res = list(ex.map(one, range(len(cases))))
+    shutil.rmtree(d, ignore_errors=True)
+    return res
